@@ -65,6 +65,7 @@ SEED_INPUTS: dict[str, list[tuple[str, str]]] = {
     "calculator_prec": [("program", "1 + 2 * 3"), ("program", "-x! ^ 2 - (3 / y)"), ("program", "5!"), ("program", "2 ^ 3 ^ 2")],
     "lists": [("lists", "- a\n- b\n  - c\n  - d\n- e"), ("lists", "- a"), ("lists", "- a\n  - b\n    - c\n- d"), ("lists", "- a\n  - b\n  - c\n    - d\n  - e\n- f\n  - g"), ("lists", "- a\n    - too deep"), ("lists", "- a\n- b\n")],
     "csv": [("file", "1,2,3\n4,5,6\n"), ("file", "-1.5,2\n")],
+    "surround": [("Quote", "(a)"), ("Quote", "<b>"), ("Quote", "(a>"), ("Quote", "((x))"), ("Quote", "<>"), ("Quote", "(")],
     "ini": [("file", "[s]\na=1\nb=two\n\n[t]\nc=3\n"), ("file", "k=v\n")],
     "http": [("http", "GET /index.html HTTP/1.1\r\nHost: example.com\r\n\r\n"), ("http", "POST /a/b?c=d HTTP/1.0\r\nA: b\r\nC-D: e f\r\n\r\n"), ("http", "GET / HTTP/1.1\r\n\r\n"), ("http", "GET / HTTP/1.1\nHost: x\n\n")],
     "json_tests": [("json", '{"a": [1, 2.5e3, -0.1, true, false, null, "x\\n\\u00e9"], "b": {}}'), ("json", "[]"), ("json", "[[[]]]")],
